@@ -8,6 +8,11 @@ N_THOROUGH = 400000
 RULE = ("pairs (x, y) of Go representations of JSON values: same value in two independently chosen representations, "
         "a one-leaf mutation, or independent values; plus the exhaustive kind x kind table. Non-trivial: the two sides "
         "use different representation types or are containers; distinct = distinct operation text")
+RULE += (". Widened: (~3%) y = the pointer to the FIRST ELEMENT of the Go array x points to (harness argument yFirstOfX: &arr and "
+         "&arr[0], &arr[0][0] — one address under two pointer types; a container and its first member are different JSON values), at the "
+         "top or both boxed in []any; (~2%) pointers to ZERO-SIZE values of different types (*[0]int, *[1][0]any, *[2][0]int, … — all "
+         "zero-size allocations share one address) denoting [] / [[]] / [[],[]]; (~3%) byte sequences ([N]uint8 by value, []uint8, "
+         "*[N]uint8, []any) of equal and of different length, alone and inside arrays / objects")
 TRUSTED = ["harness realises descriptors with reflect (goval.go); python oracle canon() used as a third opinion"]
 ASSUMPTIONS = ["nil slices / nil maps and non-JSON kinds are outside the property's domain and are not generated here",
                "strings are valid UTF-8"]
@@ -60,10 +65,81 @@ def boundary_table(rng):
     return ops
 
 
+FIRST_ELEMS = ["any", "any", "any", "int", "float64", "jnum", "string", "*int", "[]any", "map[string]any", "uint8", "bool", "*any"]
+
+
+def first_member_case(rng):
+    """x = &arr, y = &arr[0] (or &arr[0][0]): the same address, a container and its first member."""
+    for _ in range(6):
+        deep = rng.random() < 0.35
+        n = rng.choice([1, 1, 1, 2, 3])
+        if deep:
+            m = rng.choice([1, 1, 2])
+            j = [[gv.gen_json(rng, 1) for _ in range(m)] for _ in range(n)]
+        else:
+            j = [gv.gen_json(rng, 2) for _ in range(n)]
+        et = rng.choice(FIRST_ELEMS)
+        if deep:
+            T = "[%d][%d]%s" % (n, len(j[0]), et)
+        else:
+            T = "[%d]%s" % (n, et)
+        d = gv.represent_as(rng, j, T)
+        if d is None:
+            # a homogeneous array of that element type
+            leaf = lambda: gv.gen_json(rng, 1) if et in ("any", "*any") else {"int": gv.Num(str(rng.randint(-3, 3))), "*int": gv.Num("1"), "float64": gv.Num("0.5"), "jnum": gv.Num("1"),
+                            "string": "a", "[]any": [gv.gen_json(rng, 0)], "map[string]any": gv.Obj([("a", gv.gen_json(rng, 0))]), "uint8": gv.Num("7"), "bool": True}[et]
+            j = [[leaf() for _ in range(len(j[0]))] for _ in range(n)] if deep else [leaf() for _ in range(n)]
+            d = gv.represent_as(rng, j, T)
+            if d is None:
+                continue
+        k = rng.choice([1, 2]) if deep else 1
+        first_d, first_j, ft = d, j, T
+        for _ in range(k):
+            first_d, first_j = first_d["v"][0], first_j[0]
+            ft = ft[ft.index("]") + 1:]
+        if first_d is None:
+            first_d = {"t": "any", "v": None}       # an interface element holding nil: y points to that interface
+        x = {"t": "*" + T, "v": d}
+        y = {"t": "*" + ft, "v": first_d}
+        o = {"op": "equal", "args": {"x": x, "y": y, "yFirstOfX": k}, "meta": {"expect": canon(j) == canon(first_j), "alias": True, "first": True}}
+        if rng.random() < 0.3:
+            o["args"]["wrapBoth"] = rng.choice([1, 1, 2])
+        return o
+    return None
+
+
+ZERO_SIZE = [("[0]int", []), ("[0]any", []), ("[0]string", []), ("[1][0]int", [[]]), ("[1][0]any", [[]]), ("[2][0]int", [[], []]),
+             ("[0][2]any", []), ("[1][1][0]any", [[[]]]), ("[3][0]uint8", [[], [], []]), ("[0]uint8", [])]
+
+
+def zero_size_case(rng):
+    """Pointers to zero-size Go values of (mostly) different types: every zero-size allocation has one and the same address."""
+    (tx, jx), (ty, jy) = rng.choice(ZERO_SIZE), rng.choice(ZERO_SIZE)
+    x = {"t": "*" + tx, "v": gv.represent_as(rng, jx, tx)}
+    y = {"t": "*" + ty, "v": gv.represent_as(rng, jy, ty)}
+    for _ in range(rng.choice([0, 0, 1])):
+        x, y = {"t": "[]any", "v": [x]}, {"t": "[]any", "v": [y]}
+    return {"op": "equal", "args": {"x": x, "y": y}, "meta": {"expect": canon(jx) == canon(jy), "zero": True}}
+
+
 def gen(rng, tier, n):
     ops = kind_table(rng) + boundary_table(rng)
     depth = 3 if tier == "quick" else 4
     while len(ops) < n:
+        r0 = rng.random()
+        if r0 < 0.03:
+            o = first_member_case(rng)
+            if o is not None:
+                ops.append(o)
+            continue
+        if r0 < 0.05:
+            ops.append(zero_size_case(rng))
+            continue
+        if r0 < 0.08:
+            j1, j2 = gv.gen_bytes_pair(rng)
+            x, y = gv.represent_bytes(rng, j1), gv.represent_bytes(rng, j2)
+            ops.append({"op": "equal", "args": {"x": x, "y": y}, "meta": {"expect": canon(j1) == canon(j2), "bytes": True}})
+            continue
         j1 = gv.gen_json(rng, depth)
         r = rng.random()
         if r < 0.45:
